@@ -889,11 +889,11 @@ fn c05(args: &Args) -> ! {
                     Step::ContFalse => cont = false,
                     Step::Reply | Step::ReplyError => {
                         if cont && !more {
-                            // must fail and write nothing (for a oneway request Ok-without-writing is tolerated: nothing reaches the wire either way)
+                            // must fail with an error and write nothing - also for a oneway request, which carries no `more` either
                             let failed = matches!(got, StepResult::Err(e) if e.contains("CallContinuesMismatch"));
                             if *wlen != prev_len {
                                 bad = Some(("C05/continues-without-more-written", format!("step {} {:?}: {} bytes written although the request had no more flag", k, st, wlen - prev_len)));
-                            } else if !failed && !(oneway && *got == StepResult::Ok) {
+                            } else if !failed {
                                 bad = Some(("C05/continues-without-more-not-rejected", format!("step {} {:?} returned {:?}, expected CallContinuesMismatch", k, st, got)));
                             }
                         } else if oneway {
@@ -1013,6 +1013,8 @@ fn c06_corpus(thorough: bool) -> Vec<(String, Vec<Req>)> {
         ("oneway,unknown,echo".to_string(), vec![k(Kind::Echo, Flag::Oneway, "o"), k(Kind::UnknownIface, Flag::None, "u"), k(Kind::Echo, Flag::None, "c")]),
         ("nodot,tnope".to_string(), vec![k(Kind::NoDot, Flag::None, ""), k(Kind::TNope, Flag::None, "")]),
         ("gidunknown,svcnope".to_string(), vec![k(Kind::GidUnknown, Flag::None, ""), k(Kind::SvcNope, Flag::More, "")]),
+        // a long request with multi-byte characters at every alignment (error paths that echo or truncate the message)
+        ("long-unicode".to_string(), vec![k(Kind::Echo, Flag::None, &"é€x".repeat(if thorough { 120 } else { 100 }))]),
     ];
     if thorough {
         v.extend(vec![
